@@ -22,6 +22,12 @@ FRESH_CALLS = {"list", "dict", "set", "sorted", "tuple", "deepcopy", "copy", "re
 # classes whose instances are the two documented accumulators
 ACCUMULATORS = {"Transform": {"doc", "steps", "docs", "mapping"}, "Mapping": {"maps", "mirror", "to", "from_"}}
 # classes whose instances never escape the call that created them / are construction-time builders or caches
+# writes two attribute hops below `self` that were reviewed: the object written to is private state as well
+PRIVATE_DEEP = {
+    ("ParseContext.add_pending_mark", "self.top.pending_marks"),     # `top` is the parser's own NodeContext
+    ("Fitter.place_nodes", "self.frontier[...].match"),               # frontier entries belong to one Fitter
+}
+
 PRIVATE_STATE = {
     "Fitter": "the fitter is created and consumed inside replace_step()",
     "_FrontierItem": "frontier entries belong to one Fitter",
@@ -274,6 +280,12 @@ def classify(rel, fi, recv, rr, base, op, defs, fresh, is_param):
             if attr in ACCUMULATORS[c]:
                 return ("accumulator", f"{c}.{attr} is a documented accumulator")
         if c in PRIVATE_STATE:
+            # only the object's *own* fields are its private state: `self.x = …`, `self.x[i] = …`, `self.x.append(…)`.  A write
+            # through a field into the object it holds (`self.x.y = …`) changes that object, which may have been handed in by
+            # the caller (e.g. the slice a Fitter was given): private only where the held object is itself reviewed to be private
+            hops = rr.replace("[...]", "").count(".")
+            if hops >= 2 and op in ("assign", "augassign", "del") and (fi.qualname, rr) not in PRIVATE_DEEP:
+                return ("external", "write through a field into an object the private state merely refers to")
             return ("private-state", PRIVATE_STATE[c])
         return ("external", "mutation of self outside construction")
     if rel.endswith(DOM_FILES):
@@ -281,7 +293,7 @@ def classify(rel, fi, recv, rr, base, op, defs, fresh, is_param):
             return ("private-state", PRIVATE_STATE[fi.cls])
         if is_param and param_class(fi, base) in PRIVATE_STATE:
             return ("private-state", PRIVATE_STATE[param_class(fi, base)])
-        if not any(h in d.replace("DocumentFragment", "DocFrag") for d in defs for h in ("Fragment", ".content", "Mark(", "marks")) \
+        if not any(h in d.replace("DocumentFragment", "DocFrag") for d in defs for h in ("Fragment", ".content", "Mark(", "Mark.", "marks", ".none", ".empty")) \
                 and "content" not in rr and "marks" not in rr:
             return ("reviewed", "DOM layer: the receiver is an lxml element / parse rule / output element, not a document value")
     if base is not None and not is_param and defs != ["global"]:
